@@ -1,3 +1,5 @@
+//go:build go1.23
+
 package dkg
 
 // C03 through ThresholdSigner.CompleteSignature (the beacon's wrapper around
